@@ -1,6 +1,7 @@
 package main
 
 import (
+	"golang.org/x/tools/go/ssa/ssautil"
 	"encoding/json"
 	"flag"
 	"fmt"
@@ -35,12 +36,17 @@ func main() {
 	timeout := flag.Int("timeout", 0, "solver timeout (s)")
 	noReplay := flag.Bool("noreplay", false, "do not run replays")
 	axcheck := flag.String("axcheck", "", "validate the axioms of this spec file against the real path/filepath (bounded) and exit")
+	emitParams := flag.Bool("emit-params", false, "print '<pkgdir>:<contract name>\\t<parameter names>' for every /repo function and exit (used by tools_gen_params.py)")
 	flag.Parse()
 	if *axcheck != "" {
 		os.Setenv("GOVC_AXVERBOSE", "1")
 		if n := runAxCheck(*axcheck, 7, 5); n > 0 {
 			os.Exit(1)
 		}
+		return
+	}
+	if *emitParams {
+		emitParamNames()
 		return
 	}
 	if *tier == "" {
@@ -195,4 +201,37 @@ func joinLimited(xs []string, n int) string {
 		return strings.Join(xs[:n], ", ") + fmt.Sprintf(", … (%d more)", len(xs)-n)
 	}
 	return strings.Join(xs, ", ")
+}
+
+// emitParamNames lists, for every function of the packages that carry contracts, its parameter names (receiver first)
+// under the name a "//@ func" line uses for it.
+func emitParamNames() {
+	lib := NewSpecLib()
+	if err := lib.LoadAllSpecs(filepath.Join(verifDir, "specs")); err != nil {
+		fatal("%v", err)
+	}
+	pkgs := []string{"./safecast", "./http", "./commonerrors", "./safeio", "./proc", "./filesystem", "./platform", "./hashing", "./retry",
+		"./parallelisation", "./collection", "./collection/pagination", "./logs", "./subprocess"}
+	ld, err := Load(pkgs, lib)
+	if err != nil {
+		fatal("%v", err)
+	}
+	for fn := range ssautil.AllFunctions(ld.Prog) {
+		if !isRepoFunc(fn) || fn.Pkg == nil || fn.Synthetic != "" || (fn.Origin() != nil) {
+			continue
+		}
+		key := funcKey(fn)
+		pkgPath := fn.Pkg.Pkg.Path()
+		dir := strings.TrimPrefix(pkgPath, "github.com/ARM-software/golang-utils/utils/")
+		name := strings.Replace(key, pkgPath+".", "", 1)
+		var ps []string
+		for _, p := range fn.Params {
+			n := p.Name()
+			if n == "" {
+				n = "_"
+			}
+			ps = append(ps, n)
+		}
+		fmt.Printf("%s:%s\t%s\n", dir, name, strings.Join(ps, " "))
+	}
 }
